@@ -446,5 +446,6 @@ def run(ctx):
     rule_store_flow(ctx, repo)
     rule_replay(ctx, repo)
     rule_fresh_view(ctx, repo)
-    from rules import c15_outaddr
+    from rules import c15_outaddr, c15_presence
     c15_outaddr.run_rule(ctx, repo)
+    c15_presence.run_rule(ctx, repo)
